@@ -701,6 +701,37 @@ pub fn check() -> i32 {
         }
     }
     rep.extra.insert("s_scenarios".into(), json!(sout));
+    // executors that leave helper tasks behind: the engine must wait for
+    // them before it publishes (never half-published)
+    let mut hout = Vec::new();
+    for (idx, (p, d)) in crate::c06::d_params(thorough).iter().enumerate() {
+        let Some(o) = crate::report::explore_isolated(&mut rep, "c06d", idx, "detached-helpers", thorough) else {
+            continue;
+        };
+        rep.evaluations += o.executions;
+        rep.distinct_nontrivial += o.sigs;
+        hout.push(json!({"graph": p.g.describe(), "detached": p.detach, "roots": p.roots, "bound": d,
+            "schedules": o.executions, "distinct_outcomes": o.outcomes, "failures": o.failures.len()}));
+        if let Some(c) = &o.cap_hit {
+            rep.cap(c.clone());
+        }
+        if let Some(m) = o.machinery_error {
+            rep.machinery_errors.push(m);
+        }
+        for f in &o.failures {
+            let mut tags = vec![format!("{:?}", f.kind)];
+            if f.msg.contains("its executor was cancelled together with its caller") {
+                tags.push("F18-cycle-member-cancelled-with-its-caller".into());
+            }
+            rep.violation(Violation {
+                what: format!("helpers {} detached {:?} roots {:?} {:?}: {}", p.g.describe(), p.detach, p.roots, f.kind, f.msg),
+                tags,
+                replay: json!({"check": "c06d", "thorough": thorough, "scenario_index": idx,
+                    "schedule": crate::report::sched_json(&f.schedule)}),
+            });
+        }
+    }
+    rep.extra.insert("helper_scenarios".into(), json!(hout));
     rep.finish()
 }
 
